@@ -529,13 +529,16 @@ for _pid, _what in W2_WHAT.items():
     PROPS[_pid].setdefault("assumptions", []).append("engine W2 models one child per case and documented Win32 semantics (duplicate handles in a handle list and non-inheritable listed handles make CreateProcessW fail)")
 W2_ESSENTIAL = {
     "C01": ["child-exits", "terminated", "killed"],
-    "C02": ["output-exceeds-socket-buffer", "child-gone-before-first-read", "startup-input"],
+    "C02": ["output-exceeds-socket-buffer", "child-gone-before-first-read", "startup-input", "engine:fork-mode"],
     "C04": ["alloc-fault", "api-fault", "fault-fired", "restarted-after-failure"],
     "C05": ["alloc-fault", "api-fault", "fault-fired", "destroy-while-running"],
     "C06": ["terminated", "killed", "destroy-while-running"],
     "C03": ["start-succeeded", "fork-mode"],
     "C08": ["polled-weeks-after-start", "interrupted-by-signal"],
     "C18": ["random-long"],
+    "C16": ["run-null-sinks-output-exceeds-pipe"],
+    "C15": ["via-cxx-move"],
+    "C12": ["sigchld-ignored+fork-fails"],
     "C09": ["poll-after-eof", "output-piped"],
     "C17": ["blocking-probe", "stdin-flood", "startup-input-beyond-capacity"],
     "C10": ["output-piped", "start-succeeded"],
